@@ -51,6 +51,7 @@ static struct {
         unsigned out_n, hl_n, units;
         unsigned char hl_cmd[NH], hl_kind[NH];
         unsigned vw_n[2], vr_n[2];
+        size_t vw_size[2];
         uint8_t v0, v1;
         size_t wsize, wargs;
         int malformed, u_state;
@@ -164,7 +165,7 @@ static void scen_run(void)
         A.last = run_lane(0, N - 2 * R * (MODE == 1));
         A.out_n = W.out_n; A.hl_n = W.hl_n; A.units = W.units; A.malformed = W.malformed; A.u_state = W.u_state;
         for (i = 0; i < NH; i++) { A.hl_cmd[i] = W.hl_cmd[i]; A.hl_kind[i] = W.hl_kind[i]; }
-        for (i = 0; i < 2; i++) { A.vw_n[i] = W.vw_n[i]; A.vr_n[i] = W.vr_n[i]; }
+        for (i = 0; i < 2; i++) { A.vw_n[i] = W.vw_n[i]; A.vr_n[i] = W.vr_n[i]; A.vw_size[i] = W.vw_size[i]; }
         A.v0 = G_v0; A.v1 = G_v1; A.wsize = G_wsize; A.wargs = G_wargs;
         for (i = 0; i < OUTMAX; i++) A_out[i] = G_out[i];
         for (i = 0; i < CAPB_MAX; i++) A_wdata[i] = G_wdata[i];
@@ -205,6 +206,7 @@ static void scen_run(void)
         for (i = 0; i < CAPB_MAX; i++)
                 TWIN(G_wdata[i] == A_wdata[i], "the write handler was shown different argument bytes");
         TWIN(W.vw_n[0] == A.vw_n[0] && W.vw_n[1] == A.vw_n[1] && W.vr_n[0] == A.vr_n[0] && W.vr_n[1] == A.vr_n[1], "variable callbacks ran a different number of times");
+        TWIN(W.vw_size[0] == A.vw_size[0] && W.vw_size[1] == A.vw_size[1], "a variable write callback was told a different length in the two runs");
         TWIN(G_v0 == A.v0 && G_v1 == A.v1, "the two runs leave different variable values");
 #endif
         WITNESS(A.out_n >= 8, "two-units-of-output");
